@@ -106,7 +106,12 @@ func runC08(r *oblig.Report) {
 	if pp != nil {
 		cut = strings.Join(pp.TrimCutSets, "")
 	}
-	w.R86(r, "R8.6", cut, 3)
+	maxLen := 3
+	if r.Tier == "thorough" {
+		maxLen = 6 // pumpable words up to six characters
+	}
+	r.Analysed["lexer_divergence_word_bound"] = maxLen
+	w.R86(r, "R8.6", cut, maxLen)
 	r.Rule("E4", "universe", "every may-panic instruction of the repository's own code (stage 1 packages) reachable from the public entry points is discharged by a positive rule", 0).HandCount = 476
 	pk := map[string]bool{"transformer": true, "utils": true, "validation": true, "errors": true}
 	if os.Getenv("VERIF_E4_GRAPH") != "" {
